@@ -362,7 +362,7 @@ class BaseProperty(base.BaseObject):
         :return: list of new_value
         """
         if isinstance(new_value, str):
-            if new_value[0] == "[" and new_value[-1] == "]":
+            if new_value and new_value[0] == "[" and new_value[-1] == "]":
                 new_value = list(map(str.strip, new_value[1:-1].split(",")))
             else:
                 new_value = [new_value]
@@ -863,6 +863,8 @@ class BaseProperty(base.BaseObject):
             return
 
         new_value = self._convert_value_input(obj)
+        if len(new_value) == 0:
+            return
         if len(new_value) > 1:
             raise ValueError("odml.property.append: Use extend to add a list of values!")
 
@@ -907,6 +909,8 @@ class BaseProperty(base.BaseObject):
             return
 
         new_value = self._convert_value_input(obj)
+        if len(new_value) == 0:
+            return
         if len(new_value) > 1:
             raise ValueError("odml.property.insert: Use extend to add a list of values!")
 
